@@ -38,11 +38,18 @@ void verif_exit(int c) {
   __CPROVER_assume(0);
 }
 
-/* libc malloc (--replace-calls malloc:verif_malloc_1k): a request of at most 1024 bytes gets a 1024-byte object (CBMC
-   runs out of memory on objects of symbolic size); larger requests are an obligation failure */
-void * verif_malloc_1k(size_t sz) {
-  __CPROVER_assert(sz <= 1024, "bounded model of malloc: request of at most 1024 bytes");
-  return __CPROVER_allocate(1024, 0);
+/* libc malloc (--replace-calls malloc:verif_malloc_pool).  The two requests of this harness -- the edge array of
+   dr_pi_dag_enum_edges, then the counter array of dr_calc_edges -- are served from two static, correctly typed pools
+   (CBMC needs seconds instead of minutes on typed objects of constant size); a request that does not fit, or a third
+   request, is an obligation failure */
+dr_pi_dag_edge EDGE_POOL[24];
+long COUNT_POOL[dr_dag_edge_kind_max * 4];
+int g_mallocs;
+void * verif_malloc_pool(size_t sz) {
+  g_mallocs++;
+  if (g_mallocs == 1) { __CPROVER_assert(sz <= sizeof(EDGE_POOL), "bounded model of malloc: the edge array fits 24 edges"); return EDGE_POOL; }
+  __CPROVER_assert(g_mallocs == 2 && sz <= sizeof(COUNT_POOL), "bounded model of malloc: second request is the counter array of one worker");
+  return COUNT_POOL;
 }
 
 dr_pi_dag_node nondet_pi_node(void);
@@ -109,6 +116,7 @@ void h_enum_edges(void) {
   dr_global_state z = {0};
   GS = z;
   GS.opts.chk_level = nondet_char(); GS.opts.verbose_level = 0; GS.opts.dbg_level = 0;
+  g_mallocs = 0;
 
   /* arbitrary summaries of the three created (contracted) tasks */
   long C[3][5];
